@@ -264,11 +264,11 @@ func (c *Handler) validateTokenClaims(ctx context.Context, claims jwt.Claims, ke
 		)
 	}
 
-	var issuedDate time.Time
-	if claims.IssuedAt != nil {
+	// An "iat" that lies in the future must not extend the allowed lifetime: the window is measured from the issue
+	// time or from now, whichever is earlier.
+	issuedDate := time.Now()
+	if claims.IssuedAt != nil && claims.IssuedAt.Time().Before(issuedDate) {
 		issuedDate = claims.IssuedAt.Time()
-	} else {
-		issuedDate = time.Now()
 	}
 	if claims.Expiry.Time().Sub(issuedDate) > c.Config.GetJWTMaxDuration(ctx) {
 		return errorsx.WithStack(fosite.ErrInvalidGrant.
